@@ -75,14 +75,28 @@ def context_specs():
     return out
 
 
-def component(spec):
-    """coarse component for violation keys: which disabled hasher does the disabling (+ marker style)"""
-    d = first_disabled(spec)
-    if d == "unix_disabled" and spec.get("marker") and len(spec["marker"]) > 1:
+def claimer(spec, s):
+    """the disabled hasher that claims s under the context's first-match rule (None: not claimed by one)"""
+    if s is None:
+        return None
+    for scheme in spec["schemes"]:
+        if scheme == "unix_disabled":
+            if s == "" or s[0] in MARKERS:
+                return scheme
+        elif scheme == "django_disabled":
+            if s.startswith("!"):
+                return scheme
+        elif _PREFIX[scheme].match(s):
+            return None
+    return None
+
+
+def component(spec, s, disabling=False):
+    """coarse component for violation keys: the disabled hasher in charge of s (+ 'multichar_marker' when s carries one)"""
+    d = (None if disabling else claimer(spec, s)) or first_disabled(spec)
+    m = spec.get("marker")
+    if d == "unix_disabled" and m and len(m) > 1 and s is not None and s.startswith(m):
         return "unix_disabled:multichar_marker"
-    both = [s for s in spec["schemes"] if s in DISABLED]
-    if len(both) == 2:
-        return "+".join(both)
     return d
 
 
@@ -153,7 +167,8 @@ def model_disable(spec, stored, model):
     return ("disabled", stored if unix and stored else None, True)
 
 
-def state_class(stored, model):
+def state_class(stored, model, for_key=False):
+    """class of the value an event is applied to (for_key: without the history-dependent refinements)"""
     kind, emb, strong = model
     if kind == "none":
         return "none"
@@ -163,7 +178,7 @@ def state_class(stored, model):
         c = "disabled_bare" if emb is None else "disabled_with_original"
         if emb is not None and emb[0] in MARKERS:
             c += "_marker_led"
-        if not strong:
+        if not strong and not for_key:
             c += "_redisabled"
         return c
     if stored[0] in MARKERS:
@@ -194,7 +209,6 @@ class World:
         self.stored = init
         self.model = classify(spec, init)
         self.ndummy = 0
-        self.comp = component(spec)
 
 
 def _exc(e):
@@ -254,8 +268,9 @@ def counted_none_verify(w, call):
 def check_disabled_observations(w, tag):
     """the invariant of a state whose model says 'disabled'"""
     out = []
-    ctx, s, comp = w.ctx, w.stored, w.comp
-    sc = state_class(s, w.model)
+    ctx, s = w.ctx, w.stored
+    comp = component(w.spec, s)
+    sc = state_class(s, w.model, True).replace("_marker_led", "")
     r = _call(lambda: ctx.is_enabled(s))
     if r[0] == "exc":
         out.append((f"C18|{comp}|is_enabled:{sc}:raises:{_exc(r[1])}", f"{tag}: is_enabled({s!r}) raised {r[1]!r}; the value must be recognised as disabled"))
@@ -265,7 +280,7 @@ def check_disabled_observations(w, tag):
         p = password(w.spec, w, pk)
         r = _call(lambda: ctx.verify(p, s))
         if r[0] == "exc":
-            out.append((f"C18|{comp}|verify:{sc}:{pk}:raises:{_exc(r[1])}", f"{tag}: verify({p!r}, {s!r}) raised {r[1]!r}, expected False"))
+            out.append((f"C18|{comp}|verify:{sc}:raises:{_exc(r[1])}", f"{tag}: verify({p!r}, {s!r}) raised {r[1]!r}, expected False"))
         elif r[1] is not False:
             out.append((f"C18|{comp}|verify:{sc}:{pk}:accepted", f"{tag}: verify({p!r}, {s!r}) = {r[1]!r}: a disabled value verified"))
     return out
@@ -274,10 +289,14 @@ def check_disabled_observations(w, tag):
 def step(w, ev):
     """apply one event to implementation and model; returns violations"""
     out = []
-    ctx, spec, comp = w.ctx, w.spec, w.comp
+    ctx, spec = w.ctx, w.spec
     s, model = w.stored, w.model
     kind, emb, strong = model
-    sc = state_class(s, model)
+    sc = state_class(s, model, True)
+    comp = component(spec, s, ev[0] in ("disable", "disable_none"))
+    if comp.endswith("multichar_marker"):
+        sc = sc.replace("_marker_led", "")
+    osc = sc.replace("_marker_led", "")  # observations: whether the original is marker-led does not define the class
     name = ev[0]
     if name in ("disable", "disable_none"):
         arg = s if name == "disable" else None
@@ -332,9 +351,9 @@ def step(w, ev):
         r = _call(lambda: ctx.is_enabled(s))
         if kind == "disabled":
             if r[0] == "exc":
-                out.append((f"C18|{comp}|is_enabled:{sc}:raises:{_exc(r[1])}", f"is_enabled({s!r}) raised {r[1]!r}"))
+                out.append((f"C18|{comp}|is_enabled:{osc}:raises:{_exc(r[1])}", f"is_enabled({s!r}) raised {r[1]!r}"))
             elif r[1] is not False:
-                out.append((f"C18|{comp}|is_enabled:{sc}:not_false", f"is_enabled({s!r}) = {r[1]!r} for a disabled value"))
+                out.append((f"C18|{comp}|is_enabled:{osc}:not_false", f"is_enabled({s!r}) = {r[1]!r} for a disabled value"))
         return out
     if name in ("verify", "vau"):
         pk = ev[1]
@@ -365,9 +384,9 @@ def step(w, ev):
             want = False if name == "verify" else (False, None)
             api = "verify" if name == "verify" else "verify_and_update"
             if r[0] == "exc":
-                out.append((f"C18|{comp}|{api}:{sc}:{pk}:raises:{_exc(r[1])}", f"{api}({p!r}, {s!r}) raised {r[1]!r}, expected {want!r}"))
+                out.append((f"C18|{comp}|{api}:{osc}:raises:{_exc(r[1])}", f"{api}({p!r}, {s!r}) raised {r[1]!r}, expected {want!r}"))
             elif r[1] != want or (name == "verify" and r[1] is not False):
-                out.append((f"C18|{comp}|{api}:{sc}:{pk}:accepted", f"{api}({p!r}, {s!r}) = {r[1]!r}: a disabled value verified"))
+                out.append((f"C18|{comp}|{api}:{osc}:{pk}:accepted", f"{api}({p!r}, {s!r}) = {r[1]!r}: a disabled value verified"))
         return out
     raise core.HarnessError(f"unknown event {ev!r}")
 
@@ -411,8 +430,22 @@ def builder(spec, init):
     return build
 
 
+def setup_violation(spec):
+    """a context over documented schemes / markers must be constructible"""
+    try:
+        make_context(spec)
+    except core.HarnessError:
+        raise
+    except Exception as e:  # noqa: BLE001
+        return [(f"C18|{first_disabled(spec)}|context_setup:raises:{_exc(e)}",
+                 f"CryptContext(schemes={spec['schemes']}, marker={spec.get('marker')!r}) raised {e!r}")]
+    return []
+
+
 def replay(case):
     spec, init = case["ctx"], case["init"]["value"]
+    if setup_violation(spec):
+        return setup_violation(spec)
     hist = [list(e) for e in case["history"]]
     vs = explore.replay_history(builder(spec, init), step, invariant, hist)
     seen, out = set(), []
@@ -453,6 +486,9 @@ def initial_values(seed):
             out.append((f"disabled_{ml}:{name}", m + hashes[name]))
     out.append(("disabled_multichar:sha256_crypt", "*LK*" + hashes["sha256_crypt"]))
     out.append(("disabled_twice:md5_crypt", "!!" + hashes["md5_crypt"]))
+    # the listed real schemes first: the first violation kept per key then shows an ordinary hash
+    first = ("hash:sha256_crypt", "hash:md5_crypt", "hash:mysql41")
+    out.sort(key=lambda lv: (lv[0] not in first,))
     return out
 
 
@@ -464,6 +500,12 @@ def work(task):
     spec = task["ctx"]
     depth = task["depth"]
     answers = task["answers"]
+    bad = setup_violation(spec)
+    if bad:
+        acc.ev()
+        for key, desc in bad:
+            acc.violation(key, desc, {"ctx": spec, "init": {"label": "none", "value": None}, "history": []})
+        return acc
     for label, init in task["inits"]:
         build = builder(spec, init)
         seen_cls = set()
